@@ -543,7 +543,8 @@ class Provenance:
     # ----- object identity (aliasing): which objects may `expr` BE (contents=False) or CONTAIN (contents=True)
     def aliases(self, expr: ast.AST, contents: bool = False, is_fresh: Optional[Callable[[ast.Call], bool]] = None,
                 call_summary: Optional[Callable[[ast.Call], Optional[List[ast.AST]]]] = None,
-                _seen: Optional[Set[Tuple[int, bool]]] = None) -> List[Tuple[str, ast.AST]]:
+                _seen: Optional[Set[Tuple[int, bool]]] = None,
+                is_shallow: Optional[Callable[[ast.Call], bool]] = None) -> List[Tuple[str, ast.AST]]:
         """leaves: ('param', arg) ('call', Call) ('fresh', node) ('free', Name) ('other', node).
         Two-level abstraction: an object, and everything reachable inside it (any depth).
         `is_fresh(call)`: result aliases nothing (copier).  `call_summary(call)` -> list of argument
@@ -556,10 +557,10 @@ class Provenance:
         out: List[Tuple[str, ast.AST]] = []
 
         def IS(e):
-            return self.aliases(e, False, is_fresh, call_summary, seen)
+            return self.aliases(e, False, is_fresh, call_summary, seen, is_shallow)
 
         def IN(e):
-            return self.aliases(e, True, is_fresh, call_summary, seen)
+            return self.aliases(e, True, is_fresh, call_summary, seen, is_shallow)
         if isinstance(expr, ast.Name):
             ds = self.rd.defs(expr)
             if not ds:
@@ -631,6 +632,11 @@ class Provenance:
         if isinstance(expr, ast.Call):
             out.append(("call", expr))
             if is_fresh and is_fresh(expr):
+                return out
+            if is_shallow and is_shallow(expr) and expr.args:
+                # new container, shared children
+                if contents:
+                    out.extend(IN(expr.args[0]))
                 return out
             srcs: Optional[List[ast.AST]] = call_summary(expr) if call_summary else None
             if srcs is None:
